@@ -68,6 +68,15 @@ def law(rec, name, lhs, rhs, ops, require_eq=True):
         else:
             rec.note(f"{name}:both-refuse")
         return None
+    try:
+        fa, fb = float(a.base_value), float(b.base_value)
+        out_of_range = not (math.isfinite(fa) and math.isfinite(fb)) or fa == 0.0 or fb == 0.0 or max(abs(math.log10(abs(fa))), abs(math.log10(abs(fb)))) > 300
+    except Exception:
+        out_of_range = False
+    if out_of_range:
+        # the scale of one side left the float64 range (Ymol**(13/5) ... = inf): float arithmetic, not the algebra, decides
+        rec.count("discarded:scale-outside-float-range")
+        return None
     if not same(a, b):
         rec.violation(f"C05:{name}:scale-or-dimension", f"{name} on {ops}: lhs {a!r} (scale {a.base_value!r}, dim {dims.show(udim(a))}) rhs {b!r} (scale {b.base_value!r}, dim {dims.show(udim(b))})", ops)
         return None
